@@ -115,6 +115,14 @@ def verify_function(world, cname, prop, timeout_ms=QUICK_TIMEOUT_MS, source_over
                 kk = ("ref", world.short_name(q))
             env[n] = make_param(ex, st, n, kk)
         st.env = dict(env)
+        if refine_of and q and "self" in env and isinstance(env["self"], V):
+            # the body under verification runs only for receivers whose class RESOLVES the member to this implementation
+            # (a subclass that overrides it never executes this body)
+            mname = cname.split(":")[0].split(".")[1] if "." in cname else None
+            allowed = [cq for cq in [q] + world.subclasses(q)
+                       if not world.classes[cq].get("is_abstract") and mname and world.find_member(cq, mname)[0] == dq]
+            if allowed:
+                st.assume(z3.Or([world.cls_of(env["self"].t) == world.class_id[cq] for cq in allowed]))
         st.pre = st.snapshot()
         for n, k in c.params.items():
             assume_classinv(ex, st, env[n], k)
